@@ -32,7 +32,7 @@ def fromHexAux : List Char → Option (List UInt8)
 
 /-- "-" denotes the empty byte string -/
 def fromHex (s : String) : Option (List UInt8) :=
-  if s = "-" then some [] else fromHexAux s.toList
+  if s = "-" ∨ s = "=" then some [] else fromHexAux s.toList
 
 /-- mirror of the harness' `safe`: verbatim for unproblematic printable strings, 0x-hex otherwise -/
 def safe (s : String) : String :=
